@@ -242,9 +242,9 @@ def bmodCall (path : List Int) : Builtin :=
       checkType sp [scheme, nb] Val.isInteger
       match scheme, nb with
       | .int s, .int n =>
-        -- CODEC_TBL[scheme]: Python list indexing (negative wraps); out of range is an OutOfRange error (fix)
-        match pyIndex [0, 1, 2, 3] s with
-        | none => throw (builtinErr .outOfRange sp)
+        -- CODEC_TBL[scheme], 0 ≤ scheme < 4
+        match (if 0 ≤ s ∧ s < 4 then some s.toNat else none) with
+        | none => throw (valueErr sp)
         | some sc => do
           let be ← match rest with
             | [] => pure none
@@ -356,7 +356,7 @@ def applyCallee (callee : Val) (sp : Span) (args : List Arg) : Comp Arg :=
         ret (.thunk t (match body with | .lit n _ => some n | _ => none)))
     | .pipe evs =>
       let rec go : List Val → List Arg → Comp Arg
-        | [], argv => (match argv with | a :: _ => ret a | [] => throw (builtinErr .outOfRange sp))
+        | [], argv => (match argv with | a :: _ => ret a | [] => throw (valueErr sp))
         | ev :: r, argv => do let a ← callArg (.apply ev sp argv); go r [a]
       go evs args
     | .collect ev => do
